@@ -137,6 +137,10 @@ func GenExpr(r *Rand) Expr {
 		{".a + " + n, "construct", false, false},
 		{".a * " + n, "construct", false, false},
 		{".a % 3", "construct", false, false},
+		{".e[].v = .a", "assign", true, true},
+		{".d[] = .a", "assign", true, true},
+		{".c[] = .id", "assign", true, true},
+		{"(.a, .b) = .id", "assign", true, true},
 		{".a % 0x0", "construct", false, false},
 		{".d[0] % -0", "construct", false, false},
 		{".a % (.a - .a)", "construct", false, false},
@@ -406,7 +410,7 @@ var ExprThemes = map[string][]string{
 		". head_comment=\"top\"", ".c head_comment |= \"rel\"", ".c anchor = \"anc2\"", ".c anchor |= \"rel\"", "... comments=\"\"", "... comments |= \"c\"", ".a foot_comment = \"f\"", ".a foot_comment |= \"g\"",
 		".b | style", ".b | tag", ".a | line_comment", ".c | anchor",
 		// one right side, several matches on the left: the value belongs to the document, not to the expression
-		".e[].v = .a", ".d[] = .a", ".c[] = .id", ".e[].k = .b", "(.a, .b) = .id",
+		".e[].v = .a", ".d[] = .a", ".c[] = .id", ".e[].k = .b", "(.a, .b) = .id", ".e[].v = .a", ".d[] = .a", ".c[] = .id",
 	},
 	"regex": {
 		".c.y as $p | .e[] | select(.k | test(\"^\\($p)\")) | .v", ".c.y as $p | [.e[].k | test(\"^\\($p)\")]", ".id | test(\"d\\(.a)\")", ".id | sub(\"d\\(.a)\", \"D\")",
